@@ -6,14 +6,10 @@ import (
 	"fmt"
 	"strings"
 
-	"github.com/jawher/mow.cli/internal/lexer"
 	"github.com/jawher/mow.cli/internal/zverif/ref"
 )
 
-func isSpecError(v interface{}) bool {
-	_, ok := v.(*lexer.ParseError)
-	return ok
-}
+func isSpecError(v interface{}) bool { return asSpecErr(v) != nil }
 
 // Alphabets (DESIGN.md section 5).
 var (
